@@ -9,6 +9,13 @@ import (
 	"golang.org/x/tools/go/ssa"
 )
 
+// Standard-library functions that write into a byte slice argument (index of that argument).
+var extByteWriters = map[string]int{
+	"unicode/utf8::EncodeRune": 0,
+	"encoding/binary::PutUvarint": 0,
+	"io::ReadFull": 1,
+}
+
 // ---------- builtins ----------
 
 func (g *Gen) doCall(st *State, c *ssa.Call) *Val {
@@ -36,6 +43,9 @@ func (g *Gen) doCall(st *State, c *ssa.Call) *Val {
 	}
 	if fn, ok := cc.Value.(*ssa.Function); ok {
 		key := specKeyOf(fn)
+		if ai, isW := extByteWriters[key]; isW && g.hooks != nil && g.hooks.onExtWrite != nil && ai < len(args) {
+			g.hooks.onExtWrite(g, st, args[ai], pos, text)
+		}
 		if sp := g.P.specs[key]; sp != nil {
 			return g.callWithSpec(st, c, sp, fn, args, text)
 		}
